@@ -118,6 +118,8 @@ impl BuildOptimiser {
             (Some(ratio), _) => 1. - ratio,
             // The temperature is reduced once for every inner loop, reaching the finishing
             // temperature over the number of loops in the run.
+            // A temperature of zero remains zero, there is no ratio which takes it anywhere
+            (None, Some(_)) if self.kt_start == 0. => 1.,
             (None, Some(finish)) => {
                 let loops = u64::max(self.steps / inner_steps, 1);
                 f64::powf(finish / self.kt_start, 1. / loops as f64)
